@@ -9,3 +9,17 @@ func VerifRoute(svc *protogen.Service, m *protogen.Method) (verb, path string, p
 	i := extractMethodHTTPInfo(svc, m)
 	return i.httpMethod, i.path, i.pathParams
 }
+
+// VerifParams returns the names of the path and query parameters the OpenAPI
+// generator declares for a method.
+func VerifParams(svc *protogen.Service, m *protogen.Method) (path, query []string) {
+	g := NewGenerator(FormatYAML)
+	i := extractMethodHTTPInfo(svc, m)
+	for _, p := range g.buildPathParameters(m, i.pathParams) {
+		path = append(path, p.Name)
+	}
+	for _, p := range g.buildQueryParameters(m) {
+		query = append(query, p.Name)
+	}
+	return
+}
